@@ -260,3 +260,29 @@ PROPS["C19"] = {
     "impl_view": c19_view, "model_view": c19_view, "spec_view": c19_view,
     "nontrivial": c19_nontrivial,
 }
+
+
+# ---------------------------------------------------------------- C18
+def c18_norm(lines):
+    out = []
+    for l in lines:
+        if l.startswith("PT "):
+            p = l.split(" ")
+            out.append(" ".join(p[:2]) + " " + ",".join(sorted(x for x in (p[2] if len(p) > 2 else "").split(",") if x)))
+        else:
+            out.append(l)
+    return out
+
+
+C18_SPEC_PREFIXES = ("TBN ", "ROOTS ", "PT ", "NST ", "OVL ", "SUB ", "CMP ", "VARS ")
+
+
+def c18_spec_view(lines):
+    return [l for l in c18_norm(lines) if l.startswith(C18_SPEC_PREFIXES)]
+
+
+PROPS["C18"] = {
+    "rule": "one case per pool schema, exhaustive inside: every name (present and one absent) through type_by_name / object_type_by_name / type_map / directive_by_name / field_by_name / input_field_by_name, root operation types, kind predicates, possible_types of every type, is_named_subtype and is_possible_type on ALL pairs of names / definitions, do_types_overlap on ALL pairs of composite types, is_subtype on ALL pairs of type references with wrappers to depth 2 (quick) / 3 (thorough) over every named type (incl. shapes the grammar cannot write, e.g. T!!), Value::compare on ALL pairs of a pool of ~90 values (every kind, lists of different lengths, objects with different key sets, +0.0/-0.0, nesting to depth 3), variables_in_use; compared line by line with the extracted model, and (look-ups by name, roots, possible types, named subtyping, overlap, subtyping, value equality, variable leaves) with the executable specification relations. evaluations counts schemas; the number of individual helper calls is in 'helper_calls'. non-trivial = the schema has an interface implementing an interface or a union, or a schema definition",
+    "impl_view": c18_norm, "model_view": c18_norm, "spec_view": c18_spec_view, "impl_spec_view": c18_spec_view,
+    "nontrivial": lambda il, meta: len(il) > 200,
+}
